@@ -1,4 +1,173 @@
+//! C19 direct monitor: the flush worker's WAL cleanup call (`WalCleaner::new(shard).cleanup_up_to(n)`) in conservative mode
+//! over generated WAL directories and archive-side faults; one plan = one shard id of this process (CONFIG is process-global).
+//! input: {"wal_root":..., "archive_root":..., "plans":[{"shard":n, "files":[{"id":n,"entries":[{ts,ctx,type,payload,event_id}],
+//!          "torn":str|null,"blank_lines":bool}], "passes":[{"keep_from":n, "pre":[fs ops], "hook_fail":[ids]}]}]}
+//! fs ops: {"op":"mkdir","path":rel} {"op":"write","path":rel,"content":str} {"op":"write_valid_archive","path":rel,"log_id":n,"entries":[..]}
+//!         {"op":"rm","path":rel} {"op":"archive_root_file"} {"op":"archive_root_restore"}   (rel is relative to the shard's archive dir)
+//! output per plan and pass: listing of both directories, what recover_all / per-archive recovery returns.
 use serde_json::{Value, json};
-pub fn run(_input: &Value) -> Value {
-    json!({"error": "not implemented"})
+use snel_db::engine::core::wal::wal_archive::{WalArchive, WalArchiveBody, WalArchiveHeader};
+use snel_db::engine::core::wal::wal_archive_recovery::WalArchiveRecovery;
+use snel_db::engine::core::{EventId, WalCleaner, WalEntry};
+use std::io::Write;
+use std::path::{Path, PathBuf};
+use verif_harness::hooks;
+
+fn entry_of(v: &Value) -> WalEntry {
+    let mut e = WalEntry {
+        timestamp: v["ts"].as_u64().unwrap_or(0),
+        context_id: v["ctx"].as_str().unwrap_or("").to_string(),
+        event_type: v["type"].as_str().unwrap_or("").to_string(),
+        payload: Default::default(),
+        event_id: EventId::from_raw(v["event_id"].as_u64().unwrap_or(0)),
+    };
+    e.set_payload_json(v["payload"].clone());
+    e
+}
+
+fn entry_json(e: &WalEntry) -> Value {
+    json!({"ts": e.timestamp, "ctx": e.context_id, "type": e.event_type, "payload": e.payload_as_json(), "event_id": e.event_id.raw()})
+}
+
+fn listing(dir: &Path) -> Value {
+    let mut out: Vec<Value> = Vec::new();
+    if let Ok(rd) = std::fs::read_dir(dir) {
+        for e in rd.flatten() {
+            let md = e.metadata().ok();
+            out.push(json!({"name": e.file_name().to_string_lossy(), "dir": md.as_ref().map(|m| m.is_dir()).unwrap_or(false),
+                            "size": md.as_ref().map(|m| m.len()).unwrap_or(0)}));
+        }
+    } else if dir.is_file() {
+        return json!("not_a_directory");
+    } else {
+        return Value::Null;
+    }
+    out.sort_by(|a, b| a["name"].as_str().cmp(&b["name"].as_str()));
+    Value::Array(out)
+}
+
+fn apply_fs(op: &Value, arch_dir: &Path, arch_root: &Path, shard: usize) {
+    let rel = op["path"].as_str().unwrap_or("");
+    match op["op"].as_str().unwrap_or("") {
+        "mkdir" => {
+            let p = arch_dir.join(rel);
+            if p.is_file() {
+                let _ = std::fs::remove_file(&p);
+            }
+            let _ = std::fs::create_dir_all(p);
+        }
+        "write" => {
+            let _ = std::fs::create_dir_all(arch_dir);
+            let _ = std::fs::write(arch_dir.join(rel), op["content"].as_str().unwrap_or("").as_bytes());
+        }
+        "write_valid_archive" => {
+            let _ = std::fs::create_dir_all(arch_dir);
+            let entries: Vec<WalEntry> = op["entries"].as_array().map(|a| a.iter().map(entry_of).collect()).unwrap_or_default();
+            let start = entries.iter().map(|e| e.timestamp).min().unwrap_or(0);
+            let end = entries.iter().map(|e| e.timestamp).max().unwrap_or(0);
+            let header = WalArchiveHeader::new(shard, op["log_id"].as_u64().unwrap_or(0), entries.len() as u64, start, end, "zstd".to_string(), 3);
+            let arch = WalArchive { header, body: WalArchiveBody::new(entries) };
+            if let Ok(bytes) = arch.to_compressed_bytes() {
+                let cut = op["truncate_to"].as_u64().map(|n| (n as usize).min(bytes.len())).unwrap_or(bytes.len());
+                let _ = std::fs::write(arch_dir.join(rel), &bytes[..cut]);
+            }
+        }
+        "rm" => {
+            let p = arch_dir.join(rel);
+            if p.is_dir() {
+                let _ = std::fs::remove_dir_all(&p);
+            } else {
+                let _ = std::fs::remove_file(&p);
+            }
+        }
+        "archive_root_file" => {
+            // the shard's archive directory path is occupied by a regular file (ENOTDIR / EEXIST for create_dir_all)
+            let _ = std::fs::remove_dir_all(arch_dir);
+            let _ = std::fs::create_dir_all(arch_root);
+            let _ = std::fs::write(arch_dir, b"not a directory");
+        }
+        "archive_root_restore" => {
+            if arch_dir.is_file() {
+                let _ = std::fs::remove_file(arch_dir);
+            }
+        }
+        _ => {}
+    }
+}
+
+pub fn run(input: &Value) -> Value {
+    hooks::install();
+    let wal_root = PathBuf::from(input["wal_root"].as_str().unwrap_or(""));
+    let arch_root = PathBuf::from(input["archive_root"].as_str().unwrap_or(""));
+    let mut out_plans = Vec::new();
+    let empty = Vec::new();
+    for plan in input["plans"].as_array().unwrap_or(&empty) {
+        let shard = plan["shard"].as_u64().unwrap_or(0) as usize;
+        let wal_dir = wal_root.join(format!("shard-{}", shard));
+        let arch_dir = arch_root.join(format!("shard-{}", shard));
+        let _ = std::fs::remove_dir_all(&wal_dir);
+        if arch_dir.is_file() {
+            let _ = std::fs::remove_file(&arch_dir);
+        }
+        let _ = std::fs::remove_dir_all(&arch_dir);
+        let _ = std::fs::create_dir_all(&wal_dir);
+        for f in plan["files"].as_array().unwrap_or(&empty) {
+            let id = f["id"].as_u64().unwrap_or(0);
+            let path = wal_dir.join(format!("wal-{:05}.log", id));
+            let mut file = std::fs::File::create(&path).expect("create wal file");
+            for (i, ev) in f["entries"].as_array().unwrap_or(&empty).iter().enumerate() {
+                // exactly what InnerWalWriter::append_immediate writes: serde_json of the WalEntry + newline
+                let line = serde_json::to_string(&entry_of(ev)).expect("serialize");
+                file.write_all(line.as_bytes()).unwrap();
+                file.write_all(b"\n").unwrap();
+                if f["blank_lines"].as_bool().unwrap_or(false) && i % 3 == 1 {
+                    file.write_all(b"\n").unwrap();
+                }
+            }
+            if let Some(t) = f["torn"].as_str() {
+                file.write_all(t.as_bytes()).unwrap();
+            }
+            file.sync_all().unwrap();
+        }
+        let mut passes_out = Vec::new();
+        for pass in plan["passes"].as_array().unwrap_or(&empty) {
+            for op in pass["pre"].as_array().unwrap_or(&empty) {
+                apply_fs(op, &arch_dir, &arch_root, shard);
+            }
+            let fails: Vec<u64> = pass["hook_fail"].as_array().map(|a| a.iter().filter_map(|x| x.as_u64()).collect()).unwrap_or_default();
+            hooks::set_fault("wa.write", fails);
+            let before = listing(&wal_dir);
+            let keep = pass["keep_from"].as_u64().unwrap_or(0);
+            let panicked = std::panic::catch_unwind(std::panic::AssertUnwindSafe(|| {
+                WalCleaner::new(shard).cleanup_up_to(keep);
+            }))
+            .is_err();
+            hooks::set_fault("wa.write", Vec::new());
+            let rec = WalArchiveRecovery::new(shard, arch_dir.clone());
+            let all = rec.recover_all().map(|v| v.iter().map(entry_json).collect::<Vec<_>>());
+            let mut per_archive = serde_json::Map::new();
+            if let Ok(list) = rec.list_archives() {
+                for p in list {
+                    let name = p.file_name().map(|n| n.to_string_lossy().to_string()).unwrap_or_default();
+                    let v = match WalArchive::read_from_file(&p) {
+                        Ok(a) => json!({"log_id": a.header.log_id, "shard_id": a.header.shard_id, "entry_count": a.header.entry_count,
+                                        "entries": a.body.entries.iter().map(entry_json).collect::<Vec<_>>()}),
+                        Err(e) => json!({"error": e.to_string()}),
+                    };
+                    per_archive.insert(name, v);
+                }
+            }
+            passes_out.push(json!({"keep_from": keep, "panicked": panicked, "wal_before": before, "wal_after": listing(&wal_dir),
+                                   "archive_after": listing(&arch_dir),
+                                   "recover_all": match all { Ok(v) => json!(v), Err(e) => json!({"error": e.to_string()}) },
+                                   "archives": Value::Object(per_archive)}));
+        }
+        out_plans.push(json!({"shard": shard, "passes": passes_out}));
+        let _ = std::fs::remove_dir_all(&wal_dir);
+        if arch_dir.is_file() {
+            let _ = std::fs::remove_file(&arch_dir);
+        }
+        let _ = std::fs::remove_dir_all(&arch_dir);
+    }
+    json!({"plans": out_plans})
 }
